@@ -23,4 +23,5 @@ open GV.PointCodec
 #print axioms C07_base_OK
 #print axioms C07_G1_OK
 #print axioms C07_G2fp_OK
+#print axioms C07_history_independent
 #print axioms toy_OK
